@@ -2,6 +2,12 @@
 """Regenerates MANIFEST.json from the table below (keeps the file valid)."""
 import json, subprocess
 
+def conv(typ, what):
+    return dict(category="exploration", design="DESIGN.md §2, §3",
+      technique="runtime monitoring: reference-model monitor executing the script emitted by the real drc, semantic equivalence + second compare oracle",
+      text=f"Seeded (device, target) pairs for {typ} ({what}) are fed to the real drc; the printed script is executed command by command on an independent device model; the resulting state must be semantically equivalent to the target, a second compare of the dumped model must be empty and 'device unchanged' is only accepted for equivalent devices. quick 1500 pairs, thorough 40000.",
+      note="Device semantics are those of the model (written from CLI/API documentation, Appendix A of DESIGN.md); the generators cover the edit operations listed in the evidence rule; unmodelled commands make a case inconclusive, a rejected command leaves the case to C08.")
+
 CLAIMED = {
  "C20": dict(
    category="exploration", design="DESIGN.md §3 C20",
